@@ -68,3 +68,30 @@ func FaultPoints(n, max, seed int) []int {
 	}
 	return out
 }
+
+// FaultSets wraps a store: the At-th Set fails (At = 0: never); reads and deletes pass through.
+type FaultSets struct {
+	objects.Store
+	At int
+
+	mu    sync.Mutex
+	n     int
+	fired bool
+}
+
+func (f *FaultSets) Set(key, val []byte) error {
+	f.mu.Lock()
+	f.n++
+	fail := f.At > 0 && f.n == f.At
+	if fail {
+		f.fired = true
+	}
+	f.mu.Unlock()
+	if fail {
+		return ErrInjected
+	}
+	return f.Store.Set(key, val)
+}
+
+func (f *FaultSets) Sets() int   { f.mu.Lock(); defer f.mu.Unlock(); return f.n }
+func (f *FaultSets) Fired() bool { f.mu.Lock(); defer f.mu.Unlock(); return f.fired }
